@@ -343,7 +343,7 @@ func runConcrete(u *Universe, c *Contract, cins []concreteInput, rf *ReplayFile,
 	body := &strings.Builder{}
 	fmt.Fprintf(body, "func TestGovcReplay(t *testing.T) {\n")
 	fmt.Fprintf(body, "\tout := map[string]interface{}{}\n")
-	fmt.Fprintf(body, "\tdefer func() {\n\t\tif r := recover(); r != nil {\n\t\t\tout[\"panic\"] = fmt.Sprint(r)\n\t\t}\n\t\tb, _ := json.Marshal(out)\n\t\tfmt.Fprintf(os.Stdout, \"\nGOVC-REPLAY %%s\n\", b)\n\t}()\n")
+	fmt.Fprintf(body, "\tdefer func() {\n\t\tif r := recover(); r != nil {\n\t\t\tout[\"panic\"] = fmt.Sprint(r)\n\t\t}\n\t\tb, _ := json.Marshal(out)\n\t\tfmt.Fprintf(os.Stdout, \"\\nGOVC-REPLAY %%s\\n\", b)\n\t}()\n")
 	fmt.Fprintf(body, "%s\n", strings.Join(decls, "\n"))
 	nres := sig.Results().Len()
 	var rnames []string
